@@ -14,6 +14,11 @@
      CtxPoll     (caller: looks at Done() of every context Stop has returned so far)
      Tick c      (environment: the clock reads c and the goroutine is parked in its select;
                   its timer, if any, has not fired)
+     Lag c       (environment: the clock reads c, the armed timer's instant has been reached, and
+                  its tick - which will carry a value that may be OLDER than c - has not been
+                  consumed yet: a busy host.  The wake-up then works with the tick's value w
+                  while the clock reads max(c, w): it runs what was due at w, computes Next from w,
+                  and the timer it arms with NewTimer(Next - w) fires (c - w) late)
      RemoveRet id (caller: a Remove(id) call has RETURNED.  While running, Remove hands the id over
                   an unbuffered channel, so it returns only after the goroutine has taken it in its
                   select and - being single-threaded - removes the entry before anything else; while
@@ -88,7 +93,8 @@ Inductive event :=
 | CtxPoll
 | Tick (c : Z)
 | RemoveRet (id : Z)
-| StopRet.
+| StopRet
+| Lag (c : Z).
 
 (* what the event makes observable *)
 Inductive output :=
@@ -168,7 +174,8 @@ Definition step (s : state) (ev : event) : option (state * output) :=
           let '(es, rs) := wake_loop w (entries s) in
           Some (arm (mkS es w true (nextID s) None
                          (outstanding s + Z.of_nat (length rs)) (ctxs s)
-                         (starts s ++ map (fun r => (fst (fst r), snd (fst r), w)) rs) w),
+                         (starts s ++ map (fun r => (fst (fst r), snd (fst r), w)) rs)
+                         (Z.max (clk s) w)),
                 ORuns (map (fun r => (fst (fst r), snd r)) rs))
       end
   | Added t sc =>
@@ -227,6 +234,10 @@ Definition step (s : state) (ev : event) : option (state * output) :=
       then Some (s, ONone) else None
   | StopRet =>
       if running s then None else Some (s, ONone)
+  | Lag c =>
+      Some (mkS (entries s) (now s) (running s) (nextID s) (timer s) (outstanding s) (ctxs s)
+                (starts s) c,
+            ONone)
   end.
 
 (* What the environment may do (not a property of cron.go): clocks do not run backwards, a
@@ -235,7 +246,8 @@ Definition step (s : state) (ev : event) : option (state * output) :=
 Definition env_ok (s : state) (ev : event) : bool :=
   match ev with
   | Start t | Added t _ | Removed t _ => clk s <=? t
-  | Wake w => (clk s <=? w) && match timer s with Some T => T <=? w | None => false end
+  | Wake w => match timer s with Some T => T <=? w | None => false end
+  | Lag c => (clk s <=? c) && match timer s with Some T => T <=? c | None => false end
   | Tick c => (clk s <=? c) && match timer s with Some T => c <? T | None => true end
   | _ => true
   end.
@@ -293,6 +305,7 @@ Arguments CtxPoll {sched}.
 Arguments Tick {sched}.
 Arguments RemoveRet {sched}.
 Arguments StopRet {sched}.
+Arguments Lag {sched}.
 Arguments mkS {sched}.
 Arguments entries {sched}.
 Arguments now {sched}.
